@@ -110,11 +110,13 @@ fn token(coding: Coding, style: u8) -> Option<String> {
         Coding::Other(3) => "compress",
         Coding::Other(_) => "x-unknown",
     };
-    Some(match style % 4 {
+    Some(match style % 5 {
         0 => base.to_string(),
         1 => base.chars().enumerate().map(|(i, c)| if i % 2 == 0 { c.to_ascii_uppercase() } else { c }).collect(),
         2 => base.to_ascii_uppercase(),
-        _ => format!("identity, {base}"),
+        3 => format!("identity, {base}"),
+        // the list spread over two field lines (joined with a line break marker that the builder turns into two fields)
+        _ => format!("identity\n{base}"),
     })
 }
 
@@ -185,7 +187,7 @@ non-trivial = payload non-empty and one of {>=2 deflate blocks, >=2 segments, a 
             encoder_strategy(),
             gz_strategy(),
             prop::bool::weighted(0.25),
-            0u8..4,
+            0u8..5,
             prop_oneof![8 => Just(0u8), 3 => Just(1u8), 1 => Just(2u8)],
             crate::props::c01::framing_strategy(),
             seg(),
@@ -281,9 +283,15 @@ non-trivial = payload non-empty and one of {>=2 deflate blocks, >=2 segments, a 
             let mut te_override = None;
             if let Some(t) = &tok {
                 if case.via_te {
-                    te_override = Some(format!("{t}, chunked"));
+                    // two field lines when the token list is split: "Transfer-Encoding: identity" + "Transfer-Encoding: <c>, chunked"
+                    te_override = Some(match t.split_once('\n') {
+                        Some((a, b)) => format!("{a}\r\nTransfer-Encoding: {b}, chunked"),
+                        None => format!("{t}, chunked"),
+                    });
                 } else {
-                    headers.push(("Content-Encoding".into(), t.clone().into_bytes()));
+                    for part in t.split('\n') {
+                        headers.push(("Content-Encoding".into(), part.as_bytes().to_vec()));
+                    }
                 }
             }
             let mut built = build_response(200, &headers, &framing, 0, &body);
@@ -434,7 +442,8 @@ non-trivial = payload non-empty and one of {>=2 deflate blocks, >=2 segments, a 
         ctx.label_if(case.method == 2, "head");
         ctx.label_if(b.blocks >= 2, "multi-block");
         ctx.label_if(payload.len() > 65536, "payload>64KiB");
-        ctx.label_if(case.token_style % 4 == 3, "token-in-list");
+        ctx.label_if(case.token_style % 5 == 3, "token-in-list");
+        ctx.label_if(case.token_style % 5 == 4, "token-on-second-field-line");
         Outcome::Pass
     }
 }
